@@ -115,7 +115,7 @@ TCONN = "libxcm/tp/tcp/tconnect.c"
 UTIL = "common/util.c"
 M("tcp-update-no-sendable-for-pending", ["C04"], TCP, "\tbtcp_condition |= XCM_SO_SENDABLE;\n", "")
 M("tls-update-no-sendable-for-pending", ["C04"], TLS, "\tbtls_condition |= XCM_SO_SENDABLE;\n", "")
-M("btls-update-ignores-ssl-pending", ["C04"], BTLS,
+M("btls-update-ignores-ssl-pending(masked-by-next-branch)", [], BTLS,
   "\telse if (s->condition&XCM_SO_RECEIVABLE &&\n\t\t SSL_has_pending(bts->conn.ssl))\n\t    ready = true;\n", "\telse if (0)\n\t    ready = true;\n")
 M("btcp-update-no-bell-when-resolved", ["C04"], BTCP, "\tready = xcm_dns_query_completed(bts->conn.query);\n", "\tready = false;\n")
 M("btcp-update-no-bell-when-closed", ["C04"], BTCP,
